@@ -493,7 +493,8 @@ def replay_spec(facts, r):
         return {"native_script": r["native_script"], "input_text": r.get("bound"), "required": "held within the bound"}
     w = r.get("witness") or {}
     text = w.get("text")
-    if text is None and ("py_val" in r["name"] or "action[" in r.get("family", "") or r.get("clause") == "post.value"):
+    if not str(r.get("backend", "")).startswith("automata"):
+        # pyvc obligations: the solver's text need not be in the token language; replay on edge-case literals
         return {"native_script": PYVAL_REPLAY, "input_text": "sample literals of every kind",
                 "required": "py_val equals the numeric / calendar meaning; durations use the 365.25-day year and 30.44-day month"}
     if text is None:
@@ -554,11 +555,11 @@ def expect(text, kind, val, py):
 expect('12', 'Integer', '12', 12); expect('-7', 'Integer', '-7', -7)
 expect('1.5', 'Float', '1.5', 1.5); expect('2e3', 'Float', '2e3', 2000.0)
 expect('true', 'Boolean', 'true', True); expect('FALSE', 'Boolean', 'FALSE', False); expect('True', 'Boolean', 'True', True)
-expect("'it''s'", 'String', "it's", "it's"); expect("", 'String', "''", "''")
+expect("'it''s'", 'String', "it's", "it's"); expect("'" + "'" * 4 + "'", 'String', "'" * 2, "'" * 2)
+expect("' a  '", 'String', " a  ", " a  "); expect("'A" + "'" * 4 + "b'", 'String', "A" + "'" * 2 + "b", "A" + "'" * 2 + "b")
 expect('2020-02-29', 'Date', '2020-02-29', dt.date(2020, 2, 29))
 expect('23:59:58', 'Time', '23:59:58', dt.time(23, 59, 58))
 expect('12345678-1234-1234-1234-123456789abc', 'GUID', '12345678-1234-1234-1234-123456789abc', uuid.UUID('12345678-1234-1234-1234-123456789abc'))
-expect("geography'POINT(1 2)'", 'Geography', 'POINT(1 2)', None) if False else None
 for text, val, td in [
     ("duration'P1D'", 'P1D', dt.timedelta(days=1)),
     ("duration'P1Y'", 'P1Y', dt.timedelta(days=365.25)),
@@ -572,6 +573,13 @@ try:
     g = lit("geography'POINT(1 2)'")
     if g != ast.Geography('POINT(1 2)'):
         bad.append(['geography', repr(g)])
+    g = lit("GEOGRAPHY' x " + "'" * 2 + "y '")
+    if g != ast.Geography(" x " + "'" * 2 + "y "):
+        bad.append(['geography', repr(g)])
+    for t, k in (('0012', 'Integer'), ('+1.50E+02', 'Float'), ('2020-01-01T10:00:00.123+02:00', 'DateTime'), ('2020-01-01t10:00z', 'DateTime')):
+        n = lit(t)
+        if type(n).__name__ != k or n.val != t:
+            bad.append([t, repr(n)])
     i = ODataParser().parse(ODataLexer().tokenize('ns1.ns2.name eq 1')).left
     if i != ast.Identifier('name', ('ns1', 'ns2')):
         bad.append(['identifier', repr(i)])
